@@ -9,7 +9,7 @@ from ..sub import Sub
 RULE = ("Oracle: quadratic fitted to evaluate_ln outputs only, integrated in closed form by numpy (never reads Sigma/lnZ/ln_beta). "
         "Non-trivial: measures with D>=2 (non-diagonal precision, nu!=0, ln_beta!=0 by generation); densities obtained by a "
         "non-constructor route or with R>=2.")
-BOUNDS = {"D": "1..5", "R": "1..4", "history": "<=3 steps before the mass query", "Dx,Dy": "1..4"}
+BOUNDS = {"D": "1..5; high_dim sub-check 20..160", "R": "1..4", "history": "<=3 steps before the mass query", "Dx,Dy": "1..4"}
 ASSUMPTIONS = [
     "evaluate_ln values at 1+2D+D(D-1)/2 probe points determine the function (verified at 3 further points per case)",
     "closed-form Gaussian integral of the fitted quadratic in numpy float64 (Cholesky) is the reference integral",
@@ -369,6 +369,120 @@ def _run_ap(case):
     return fails
 
 
+# ------------------------------------------------------------------------------------------ high dimension
+# D = 20..64 (diagonal classes up to 160) with overall scales down to standard deviations of 1e+-8: the determinant of the
+# covariance leaves the float64 range although its logarithm is an ordinary number.  The fitted-quadratic oracle is not used
+# here (1+2D+D(D-1)/2 probe points, and it loses accuracy on extreme scales): the reference is the numpy log-density / log-mass
+# computed from the defining inputs, compared with what the object EVALUATES to at points within a few standard deviations
+# of its mean, and with the reported log-integral.
+def _pool_hd(tier):
+    base = [(20, 1), (32, 2), (48, 1), (160, 1)]
+    if tier == "thorough":
+        base += [(24, 2), (64, 1), (40, 3), (96, 1)]
+    return base
+
+
+_HD_ROUTES = ["ctor_S", "ctor_SL", "ctor_SLd", "slice", "marginal", "get_density", "normalize", "measure"]
+
+
+def _strategy_hd(shapes):
+    @st.composite
+    def s(draw):
+        D, R = draw(st.sampled_from(shapes))
+        diag = True if D > 64 else draw(st.booleans())
+        route = draw(st.sampled_from(_HD_ROUTES))
+        base = "measure" if route in ("get_density", "normalize", "measure") else "pdf"
+        kind = ("diag_" if diag else "") + base
+        case = {"D": D, "R": R, "diag": diag, "route": route, "kind": kind, "cache": draw(st.sampled_from(gen.CACHES)),
+                "m": draw(gen.measure_params(kind, R, D, draw(st.sampled_from([10.0, 100.0])), extreme="wide")),
+                "z": draw(gen.arr((2, D), -1.5, 1.5))}
+        if base == "measure":
+            case["m"]["ln_beta"] = np.asarray(case["m"]["ln_beta"], float)
+        if route == "slice":
+            case["idx"] = draw(gen.index_array(R, 1, 3))
+        if route == "marginal":
+            k = draw(st.integers(max(1, D - 6), D))
+            case["dims"] = list(draw(st.permutations(list(range(D))))[:k])
+        return case
+    return s()
+
+
+def _run_hd(case):
+    from .. import libx
+    from ..libx import J
+    import jax.numpy as jnp
+    from gaussian_toolbox import pdf
+
+    fails = []
+    D, R, route, kind = case["D"], case["R"], case["route"], case["kind"]
+    z = np.asarray(case["z"], float)
+    if kind.endswith("pdf"):
+        Sig, mu = np.asarray(case["m"]["Sigma"], float), np.asarray(case["m"]["mu"], float)
+        cls = pdf.GaussianDiagPDF if case["diag"] else pdf.GaussianPDF
+        kw = {"Sigma": J(Sig), "mu": J(mu)}
+        if route in ("ctor_SL", "ctor_SLd"):
+            kw["Lambda"] = J(oracle.inv_spd(Sig))
+        if route == "ctor_SLd":
+            kw["ln_det_Sigma"] = J(oracle.slogdet_spd(Sig)[0])
+        ok, p = lib(fails, "construct_pdf", lambda: cls(**kw))
+        if not ok:
+            return fails
+        libx.warm(p, case["cache"])
+        d, dims = p, list(range(D))
+        if route == "slice":
+            idx = np.array(case["idx"])
+            ok, d = lib(fails, "slice", lambda: p.slice(jnp.array(case["idx"])))
+            Sig, mu = Sig[idx], mu[idx]
+        elif route == "marginal":
+            dims = case["dims"]
+            ok, d = lib(fails, "get_marginal", lambda: p.get_marginal(libx.IDX(dims)))
+            Sig, mu = Sig[:, dims][:, :, dims], mu[:, dims]
+        if not ok:
+            return fails
+        lnm = None
+    else:
+        Lam, nu, lb = libx.measure_params_np(kind, case["m"])
+        ok, m = lib(fails, "construct_measure", libx.make_measure, kind, case["m"], case["cache"])
+        if not ok:
+            return fails
+        mu, Sig = oracle.mean_cov(Lam, nu)
+        lnm, lnm_s = oracle.ln_mass(Lam, nu, lb)
+        for nm in ("log_integral_light", "log_integral"):
+            ok, got = lib(fails, nm, lambda: getattr(m, nm)())
+            if ok:
+                check(fails, f"high_dim[{route}]:{nm}", got, lnm, lnm_s)
+        if route == "measure":
+            # the measure itself: u(x) at points near the mean
+            x = mu[0] + z * np.sqrt(np.einsum("ii->i", Sig[0]))
+            want, sc = oracle.ln_factor(Lam, nu, lb, x)
+            ok, got = lib(fails, "measure.evaluate_ln", lambda: m.evaluate_ln(J(x)))
+            if ok:
+                check(fails, "high_dim[measure]:evaluate_ln", got, want, sc)
+            return fails
+        if route == "get_density":
+            ok, d = lib(fails, "get_density", lambda: m.get_density())
+        else:
+            ok, _ = lib(fails, "normalize", lambda: m.normalize())
+            d = m
+        if not ok:
+            return fails
+    tag = f"high_dim[{route}]"
+    x = mu[0] + z[:, : mu.shape[1]] * np.sqrt(np.einsum("ii->i", Sig[0]))
+    want, sc = oracle.mvn_ln(x, mu, Sig)
+    if lnm is not None:
+        sc = sc + lnm_s[:, None]
+    ok, got = lib(fails, tag + ".evaluate_ln", lambda: d.evaluate_ln(J(x)))
+    if ok:
+        check(fails, tag + ":log_density", got, want, sc * np.maximum(1.0, oracle.cond(Sig))[:, None] ** 0.5)
+    ld, lds = oracle.slogdet_spd(Sig)
+    ok, got = lib(fails, tag + ".log_integral", lambda: d.log_integral())
+    if ok:
+        check(fails, tag + ":log_mass_not_zero", got, np.zeros(len(ld)), lds + (0 if lnm is None else lnm_s))
+    if getattr(d, "ln_det_Sigma", None) is not None:
+        check(fails, tag + ":ln_det_Sigma", np.asarray(d.ln_det_Sigma), ld, lds)
+    return fails
+
+
 SUBS = [
     Sub("measure_mass", _pool_mass, _strategy_mass, _run_mass, _nontrivial_mass, _labels_mass,
         examples={"quick": 70, "thorough": 500}, shards={"quick": 8, "thorough": 16}, rule="D>=2"),
@@ -379,4 +493,7 @@ SUBS = [
     Sub("approx_routes", _pool_ap, _strategy_ap, _run_ap, lambda c: c["Dx"] + c["Dy"] >= 3,
         lambda c: [f"akind={c['akind']}", f"route={c['route']}"],
         examples={"quick": 50, "thorough": 300}, shards={"quick": 6, "thorough": 10}, rule="Dx+Dy>=3"),
+    Sub("high_dim", _pool_hd, _strategy_hd, _run_hd, lambda c: True,
+        lambda c: [f"route={c['route']}", f"diag={c['diag']}", f"D={c['D']}"],
+        examples={"quick": 40, "thorough": 200}, shards={"quick": 4, "thorough": 8}, rule="all (D >= 20)"),
 ]
